@@ -249,14 +249,25 @@ class World:
 
     # -- real objects ------------------------------------------------------------------------------------------------
     def balancer(self, ci, cache):
-        key = (ci, cache)
-        if (self.fresh and cache) or key not in self.bal:
-            c = CFGS[ci]
+        # One Balancer object per (column names, cache) is shared by the configurations that differ only in the threshold;
+        # the threshold is set through the public attribute before every call (as a long-lived service object would be
+        # reconfigured), so a configuration captured once at construction time would go stale.  In `fresh` mode every
+        # cached call constructs its Balancer anew with the threshold given to the constructor.
+        c = CFGS[ci]
+        if self.fresh and cache:
+            b = self.probe.Balancer(
+                n_jobs=1, cache=cache, cache_dir=self.dir, confidence_threshold=c["confidence_threshold"],
+                reaction_col=c["reaction_col"], id_col=c["id_col"],
+            )
+            return b
+        key = (c["reaction_col"], c["id_col"], cache)
+        if key not in self.bal:
             self.bal[key] = self.probe.Balancer(
                 n_jobs=1, cache=cache, cache_dir=self.dir if cache else None, confidence_threshold=c["confidence_threshold"],
                 reaction_col=c["reaction_col"], id_col=c["id_col"],
             )
         b = self.bal[key]
+        b.confidence_threshold = c["confidence_threshold"]
         if cache:
             b.cache_dir = self.dir
         return b
